@@ -188,6 +188,8 @@ inductive Edit where
   | pop                                     -- `list.pop()`
   | bindNew (k : String) (kind : Kind) (slots : List (String × Src))   -- `obj[k] = <newly created object>`
   | copyList (k : String) (src : ListSrc)   -- `obj[k] = list(<existing list>)`: a new list with the same items
+  | copyArray (k : String) (src : ListSrc)  -- `obj[k] = np.array(<values of an existing array>)`: a new array
+  | copyCells (src : ListSrc)               -- `arr[:] = <existing array>`: element values copied into the object
   deriving DecidableEq, Repr
 
 structure Step where
@@ -236,6 +238,15 @@ def applyEdit (h : Heap) (root l : Loc) : Edit → Heap
     | some o, some so =>
       (h ++ [Obj.mk .list (immSlots so.slots)]).set l (withSlots o (slotSet o.slots k (.ref h.length)))
     | _, _ => h
+  | .copyArray k src =>
+    match h[l]?, (listSrcLoc h root src).bind (fun sl => h[sl]?) with
+    | some o, some so =>
+      (h ++ [Obj.mk .array (immSlots so.slots)]).set l (withSlots o (slotSet o.slots k (.ref h.length)))
+    | _, _ => h
+  | .copyCells src =>
+    match h[l]?, (listSrcLoc h root src).bind (fun sl => h[sl]?) with
+    | some o, some so => h.set l (withSlots o (immSlots so.slots))
+    | _, _ => h
 
 def applyStep (h : Heap) (root : Loc) (s : Step) : Heap :=
   match nav h root s.path with
@@ -267,6 +278,10 @@ inductive Op where
   | popLast (field : List String)                          -- `<list at field>.pop()`
   | dictSet (field : List String) (k v : String)           -- `<dict at field>[k] = v`
   | traceT (t : Nat) (src : TraceNames) (fresh : Bool) (label : Imm) (n : Nat)   -- `trace_t(t, label, trace=…)`
+  | assignFrom (x : String) (src : Loc) (inplace : Bool)   -- whole-variable assignment from ANOTHER object's
+      -- variable (the array at `src`): `m.X = other.Y`, `m['X'] = other['Y']`, `m.replace_values(X=other.Y)`,
+      -- `m.values = other.values`, `m.X = other.Y[:]` store element values into the existing array (`inplace`);
+      -- `m.X = list(other.Y)` binds a new array built from the values.  Never the passed object itself.
   | inSub (key : String) (op : Op)                         -- the same through `linker.submodels[key]`
   deriving Repr
 
@@ -284,10 +299,14 @@ def prefixStep (pre : List String) (s : Step) : Step :=
   match s.edit with
   | .bindNew k kind srcs => ⟨pre ++ s.path, .bindNew k kind (srcs.map (prefixSrc pre))⟩
   | .copyList k (.own p) => ⟨pre ++ s.path, .copyList k (.own (pre ++ p))⟩
+  | .copyArray k (.own p) => ⟨pre ++ s.path, .copyArray k (.own (pre ++ p))⟩
+  | .copyCells (.own p) => ⟨pre ++ s.path, .copyCells (.own (pre ++ p))⟩
   | e => ⟨pre ++ s.path, e⟩
 
 def opSteps : Op → List Step
   | .setCell x i v => [⟨["_" ++ x], .setImm (keyOf i) v⟩]
+  | .assignFrom x src inplace =>
+    if inplace then [⟨["_" ++ x], .copyCells (.ext src)⟩] else [⟨[], .copyArray ("_" ++ x) (.ext src)⟩]
   | .rebind x n => [⟨[], .bindNew ("_" ++ x) .array (cellSrcs n)⟩]
   | .addVariable x n model =>
     [⟨[], .bindNew ("_" ++ x) .array (cellSrcs n)⟩, ⟨["index"], .push (.str x)⟩] ++
